@@ -141,6 +141,7 @@ def h_scheduler(sym, geometric=None, rungs=None, W=2, E=9, mode="min", max_fail=
                 sym.event("start t%d to %d" % (tid, target[tid]))
             else:
                 tid = s.checkpoint_trial_id
+                sym.check(tid not in failed, "C13.failed-trial-resumed", "failed trial %s is resumed although enough valid results exist in its rung (failed=%s)" % (tid, sorted(failed)))
                 sym.check(tid in paused and tid not in running, "C05.resume-not-paused", "trial %s resumed; paused=%s running=%s failed=%s" % (tid, sorted(paused), running, sorted(failed)))
                 paused.discard(tid)
                 old = target[tid]
@@ -215,8 +216,16 @@ def obligations(tier):
 
 def failure_obligations(tier):
     """C13(b)"""
-    return [Ob("C13.b[sync-hyperband,failures<=2]", "props.c05:h_scheduler", dict(geometric=[1, 2], W=2, E=8, mode="min", max_fail=2, max_t=4),
+    R1 = [[[3, 1], [1, 3]], [[1, 3]]]
+    return [Ob("C13.b[sync-hyperband,geometric,failures<=2]", "props.c05:h_scheduler", dict(geometric=[1, 2], W=2, E=8, mode="min", max_fail=2, max_t=4),
                bounds=dict(grace=1, rf=2, max_t=4, W=2, events=8, failures="<=2"), goals=("failure", "end", "drained"),
+               split=(("c1", (0, 1, 2)), ("c2", (0, 1, 2, 3, 4))), budget_s=1800),
+            # rung of 3 -> 1: with <= 2 failures at least one valid result exists, so a failed trial must never be resumed
+            Ob("C13.b[sync-hyperband,rungs=(3,1)(1,3),%s,failures<=2]" % "max", "props.c05:h_scheduler", dict(rungs=R1, W=2, E=8, mode="max", max_fail=2, max_t=3),
+               bounds=dict(rungs=R1, W=2, events=8, failures="<=2"), goals=("failure", "end", "promotion"),
+               split=(("c1", (0, 1, 2)), ("c2", (0, 1, 2, 3, 4))), budget_s=1800),
+            Ob("C13.b[sync-hyperband,rungs=(3,1)(1,3),%s,failures<=2]" % "min", "props.c05:h_scheduler", dict(rungs=R1, W=3, E=8, mode="min", max_fail=2, max_t=3),
+               bounds=dict(rungs=R1, W=3, events=8, failures="<=2"), goals=("failure", "end", "promotion"),
                split=(("c1", (0, 1, 2)), ("c2", (0, 1, 2, 3, 4))), budget_s=1800)]
 
 
